@@ -46,7 +46,9 @@ PerLevel == {1, 2, 3, 4, 10, 13}                                       \* | || &
 QOps == IF Quads = "all" THEN OneEach ELSE IF Quads = "rep" THEN PerLevel ELSE {}
 Inst4 == { [o1 |-> a, o2 |-> b, o3 |-> c, pf |-> <<1, 1, 1>>] : a \in QOps, b \in QOps, c \in QOps }
 InstSeq == SetToSeq({ [o1 |-> i.o1, o2 |-> i.o2, o3 |-> 0, pf |-> i.pf] :
-                        i \in (IF Triples THEN Inst3 ELSE Inst2 \cup { j \in Inst3 : j.pf = <<1, 1, 1>> }) } \cup Inst4)
+                        i \in (IF Triples THEN Inst3 ELSE Inst2 \cup { j \in Inst3 : j.pf = <<1, 1, 1>> }
+                                   \* a sign on the middle operand of an arithmetic operator (x / -y / z)
+                                   \cup { j \in Inst3 : j.pf \in {<<1, 3, 1>>, <<1, 4, 1>>} /\ j.o1 >= 10 }) } \cup Inst4)
 
 VARIABLES bucket, idx
 NB == 64
